@@ -146,7 +146,7 @@ theorem appendPlan_model (l : Log) (pcOpt : Int) :
 theorem appendPlan_eq (l : Log) (pcOpt : Int)
     (hE : ∀ e ∈ l.entries, e.hash ≠ []) (hH : ∀ e ∈ l.heads, e.hash ≠ [])
     (hlen : (traverseG l.entries (before l.sortFn) (sortedHeads l)
-              (max (if pcOpt ≠ 0 then pcOpt else 1) (sortedHeads l).length) none).length + 2 ≤
+              (max (if pcOpt ≠ 0 then pcOpt else 1) (sortedHeads l).length) none).length + 1 ≤
             traverseFuel l.entries (sortedHeads l)) :
     Generated.Go.appendPlan (traverseFuel l.entries (sortedHeads l)) l.entries (before l.sortFn) l.heads
         l.clock.id l.clock.time pcOpt =
@@ -173,7 +173,7 @@ theorem appendPlan_eq (l : Log) (pcOpt : Int)
   -- enough fuel for the doubling loop
   have hf : everyPow2 all (min pc (all.length : Int)) (traverseFuel l.entries (sortedHeads l)) 1 =
       everyPow2 all (min pc (all.length : Int)) (all.length + 2) 1 :=
-    everyPow2_fuel all _ (all.length + 2) _ _ 1 (by omega) (by omega) hlen (Nat.le_refl _)
+    everyPow2_fuel all _ (all.length + 1) _ _ 1 (by omega) (by omega) hlen (by omega)
   rw [hf]
   unfold planRefsRaw planNextRaw
   simp only [hPC, hall]
